@@ -7,6 +7,6 @@ props="$*"
 mkdir -p /tmp/vf-runall
 for p in $props; do
   ( /venv/bin/python check.py --property $p --tier $tier > /tmp/vf-runall/$p.log 2>&1; echo "$p exit=$? $(grep -E '^SUMMARY' /tmp/vf-runall/$p.log | cut -c1-160)"; grep -E '^(VIOLATION|INCONCLUSIVE)' /tmp/vf-runall/$p.log | cut -c1-300 ) &
-  while [ $(jobs -r | wc -l) -ge 3 ]; do sleep 1; done
+  while [ $(jobs | grep -c Running) -ge 3 ]; do sleep 1; done
 done
 wait
